@@ -190,3 +190,75 @@ class CondScenario:
 
     def some_not_ended(self):
         return z3.Not(self.all_ended())
+
+
+class EventScenario:
+    """Event waiters (symbolic timeouts), setters, clearers and is_set probers."""
+
+    def __init__(self, waiters=2, setters=1, clearers=0, probers=0, same_process=True, fixed=None):
+        import loky.backend.synchronize as sy
+        fixed = fixed or {}
+        self.ct = ClassTable([sy, drivers_cond])
+        self.S = S = State()
+        self.objects = {}
+        n = waiters + setters + clearers + probers
+        nprocs = 1 if same_process else n
+        fdef, _ = self.ct.method("Event", "__init__")
+        members = {s.targets[0].attr: ast.unparse(s.value) for s in fdef.body
+                   if isinstance(s, ast.Assign) and isinstance(s.targets[0], ast.Attribute)}
+        if members != {"_cond": "Condition(Lock())", "_flag": "Semaphore(0)"}:
+            raise Unsupported(f"Event.__init__ builds unexpected members: {members}")
+        self.lock, self.sleeping, self.woken, self.waitsem = build_condition(self.objects, self.ct, S, nprocs, "Lock")
+        self.flag = make_semlock_obj(self.objects, self.ct, S, "flag", "Semaphore", nprocs, value=0)
+        self.objects["ev"] = {"cls": "Event", "attrs": {"_cond": ObjRef("cond"), "_flag": ObjRef("flag")}}
+        self.obs = ObsModel(S)
+        self.objects["obs"] = {"model": self.obs}
+        S.declare("g.badret", "bool", False)
+        S.declare("g.setdone", "bool", False)
+        flagv = "flag.sl.v"
+
+        def returned(args, kwargs, t, S_):
+            r = args[0]
+            rz = r if z3.is_expr(r) else z3.BoolVal(bool(r))
+            # the caller held the condition's lock from its last look at the flag until this instant
+            return [Outcome(z3.BoolVal(True), {"g.badret": z3.Or(S_["g.badret"], rz != (S_[flagv] == 1)),
+                                                f"g.ret.{t.tid}": z3.If(rz, z3.BitVecVal(1, 2), z3.BitVecVal(2, 2))},
+                            None, None, "obs")]
+
+        def set_done(args, kwargs, t, S_):
+            return [Outcome(z3.BoolVal(True), {"g.setdone": z3.BoolVal(True)}, None, None, "obs")]
+        self.obs.define("event_wait_returned", returned, fused=True)
+        self.obs.define("is_set_returned", returned, fused=True)
+        self.obs.define("set_done", set_done, fused=True)
+        self.comp = Compiler(self.ct, self.objects, opaque_calls=["util.debug"])
+        self.sys = System(self.objects, S)
+        self.waiter_tids, tid = [], 0
+        plan = [("W", "event_waiter", waiters), ("S", "event_setter", setters), ("C", "event_clearer", clearers),
+                ("P", "event_prober", probers)]
+        for pre, fn, cnt in plan:
+            for i in range(cnt):
+                tid += 1
+                S.declare(f"g.ret.{tid}", 2, 0)
+                args = [("o", "ev"), ("o", "obs")]
+                if pre == "W":
+                    nm = f"in.timeout.{tid}"
+                    S.declare(nm, "bool", None)
+                    self.sys.local_types[nm] = "bool"
+                    self.comp.immutable.add(nm)
+                    self.waiter_tids.append(tid)
+                    args.append(("c", fixed[nm]) if nm in fixed else ("v", nm))
+                fdef, _ = self.ct.funcs[fn]
+                from .front import Ctx
+                end = lambda r: Node("end", value=None, label="end")
+                ctx = Ctx(self.comp, "top", {}, end, [], [], [])
+                entry = self.comp.inline(fdef, args, {}, ctx, end, fn)
+                self.sys.add_thread(f"{pre}{i + 1}", 0 if same_process else tid - 1, entry)
+        self.sys._keep = {n for n in S.decl if n.startswith(("in.", "g."))}
+        self.sys.build()
+        self.functions = sorted(self.comp.used_functions)
+
+    def all_ended(self):
+        return z3.And(*[self.S[t.pcvar] == z3.BitVecVal(END, 8) for t in self.sys.threads])
+
+    def ended(self, prefix):
+        return z3.And(*[self.S[t.pcvar] == z3.BitVecVal(END, 8) for t in self.sys.threads if t.name.startswith(prefix)])
